@@ -66,8 +66,23 @@ class TLCResult:
         return res
 
 
-def run(module, cfg=None, env=None, workers=1, timeout=600, args=(), spec_dir=SPEC, heap="2g",
-        deadlock=None, coverage=False, constants=None, cwd=None):
+def run(module, cfg=None, **kw):
+    """Run TLC; an infrastructure failure (JVM could not start, I/O error under load, ...) is retried once - the verdict always
+    comes from a run that completed.  The output of a failed attempt is kept under build/tlc-failures/ for diagnosis."""
+    try:
+        return _run(module, cfg, **kw)
+    except MachineryError as ex:
+        if "timeout" in str(ex):
+            raise
+        d = os.path.join(BUILD, "tlc-failures")
+        os.makedirs(d, exist_ok=True)
+        with open(os.path.join(d, f"{module}-{int(time.time())}-{os.getpid()}.txt"), "w") as f:
+            f.write(str(ex))
+        return _run(module, cfg, **kw)
+
+
+def _run(module, cfg=None, env=None, workers=1, timeout=600, args=(), spec_dir=SPEC, heap="2g",
+         deadlock=None, coverage=False, constants=None, cwd=None):
     """Run TLC on spec_dir/module.tla with spec_dir/cfg (default module.cfg)."""
     cfg = cfg or (module + ".cfg")
     meta = tempfile.mkdtemp(prefix="tlcmeta-")
@@ -100,7 +115,7 @@ def run(module, cfg=None, env=None, workers=1, timeout=600, args=(), spec_dir=SP
                  r"TLC encountered an unexpected exception|evaluating an expression of the form|"
                  r"Error: Evaluating|Attempted to|The exception was a|Error: In evaluation|Error: The first argument|"
                  r"Error: Parsing the configuration|is not defined|Error: Configuration file)", res.out):
-        raise MachineryError(f"TLC failed on {module} ({cfg}):\n" + res.out[-4000:])
+        raise MachineryError(f"TLC failed on {module} ({cfg}):\n" + res.out[-6000:])
     return res
 
 
